@@ -9,6 +9,7 @@ import Mathlib.Tactic.Linarith
 import Mathlib.Tactic.Ring
 import PV.Model.JsonRep
 import PV.Proofs.C11Lemmas
+import PV.Proofs.C11bLemmas
 import PV.Proofs.RealScalar
 
 namespace PV
@@ -111,5 +112,89 @@ theorem c11_rep_samples (idl : List Int) (deltas : List (List ℝ)) (rvals vals 
   ring
 
 
+
+
+/-! ### nested dictionaries: the placeholder mechanism of `dump_dict_to_json` / `load_json_dict` -/
+
+section dictionaries
+open PV.Tree
+
+/-- C11 (dictionaries): whatever nested dictionary the export accepts, with at least one observable
+    structure in it, the import of the exported pair (list of structures, dictionary with
+    placeholders) is the original dictionary: every structure is back at its place (an all-`Obs`
+    list as the list it was), every other value and the order of the keys are untouched.  For every
+    alphanumeric placeholder stem, every depth and every mixture of lists and dictionaries. -/
+theorem c11_dict_roundtrip (reps : String) (d nd : List (String × T)) (ol : List Slot)
+    (h : exportDict reps d = .ok (nd, ol)) (hne : ol ≠ []) : importDict reps ol nd = .ok d := by
+  unfold exportDict at h
+  split at h
+  · cases h
+  rename_i hal
+  obtain ⟨new, hnew, hin⟩ := (roundtrip_all reps).1 d [] nd ol h
+  simp only [List.nil_append] at hnew
+  subst hnew
+  unfold importDict
+  rw [if_neg hal, hin ol 0 (List.prefix_refl _)]
+  have : (0 + ol.length == 0) = false := by
+    cases ol with
+    | nil => exact absurd rfl hne
+    | cons _ _ => simp
+  simp only [this]
+  rfl
+
+/-- a dictionary without any structure is exported, and the import of that export is refused
+    ("No placeholder has been replaced"): never a silently different dictionary -/
+theorem c11_dict_without_structure (reps : String) (d nd : List (String × T))
+    (h : exportDict reps d = .ok (nd, [])) : importDict reps [] nd = .error .noPlaceholder := by
+  unfold exportDict at h
+  split at h
+  · cases h
+  rename_i hal
+  obtain ⟨new, hnew, hin⟩ := (roundtrip_all reps).1 d [] nd [] h
+  unfold importDict
+  rw [if_neg hal, hin [] 0 (List.prefix_refl _)]
+  have : new = [] := by simpa using hnew.symm
+  simp [this]
+
+/-- a string value that looks like a placeholder makes the export raise (top level of the dictionary) -/
+theorem c11_dict_clash_rejected (reps : String) (d : List (String × T)) (k s : String)
+    (hk : (k, T.str s) ∈ d) (hs : isPlaceholder reps s = true) : ∃ e, exportDict reps d = .error e := by
+  unfold exportDict
+  split
+  · exact ⟨_, rfl⟩
+  suffices H : ∀ ol, ∃ e, exDict reps d ol = .error e from H []
+  induction d with
+  | nil => cases hk
+  | cons p rest ih =>
+    intro ol
+    obtain ⟨k', v'⟩ := p
+    rcases List.mem_cons.mp hk with heq | hmem
+    · cases heq
+      exact ⟨.placeholderClash s, by simp [exDict, exDictVal, hs]⟩
+    · cases hv : exDictVal reps v' ol with
+      | error e => exact ⟨e, by simp [exDict, hv]⟩
+      | ok r =>
+        obtain ⟨e, he⟩ := ih hmem r.2
+        exact ⟨e, by simp [exDict, hv, he]⟩
+
+/-- a generated placeholder is recognised by the import and decodes to its counter, for every stem and
+    every counter (so the 11th, 101st, ... structure is found again) -/
+theorem c11_placeholder_decodes (reps : String) (n : Nat) :
+    isPlaceholder reps (placeholder reps n) = true ∧ phIndex reps (placeholder reps n) = .ok n :=
+  ⟨isPlaceholder_placeholder reps n, phIndex_placeholder reps n⟩
+
+/-- the hypotheses are satisfiable: a dictionary with a nested dictionary, an all-`Obs` list, a mixed
+    list and a correlator exports to four slots -/
+example : exportDict "DICTOBS" [("a", .leaf .obs 0), ("b", .list [.leaf .obs 1, .leaf .obs 2]),
+    ("c", .dict [("d", .list [.str "x", .leaf .corr 3, .list [.leaf .obs 4]]), ("e", .atom "1.5")])]
+    = .ok ([("a", .str "DICTOBS0"), ("b", .str "DICTOBS1"),
+            ("c", .dict [("d", .list [.str "x", .str "DICTOBS2", .list [.str "DICTOBS3"]]), ("e", .atom "1.5")])],
+           [.one .obs 0, .many [1, 2], .one .corr 3, .one .obs 4]) := by
+  have h1 : isAlnum "DICTOBS" = true := by decide
+  have h2 : isPlaceholder "DICTOBS" "x" = false := by decide
+  simp [exportDict, h1, h2, exDict, exDictVal, exList, exListVal, obsIds, placeholder]
+  decide
+
+end dictionaries
 
 end PV
